@@ -472,6 +472,6 @@ def run(ctx):
     for i in ctx.insts[n0:]:
         i.rule = "C20.CGMAP" if i.rule.startswith("C16") else "C20.POS-ENT"
     ctx.floors = {k: v for k, v in ctx.floors.items() if k.startswith("C20")}
-    from .. import truth
-    truth.rule(ctx, "C20.TRUTH", ctx.py, ["rdnetwork", "rdgridspace", "rdgraphspace", "rdsystem", "rdscript", "value_processing", "units"], floor=100)
+    from .. import lints
+    lints.run(ctx, "C20", ctx.py, ["rdnetwork", "rdgridspace", "rdgraphspace", "rdsystem", "rdscript", "value_processing", "units"], truth_floor=100)
     ctx.assume("that every invalid *value* of every field is rejected is not decided; only the listed classes")
